@@ -95,3 +95,69 @@ package secec
 //@   ensures (derspki(data) && sec1u(derspki_key(data))) ==> affx(abs(result0.point)) == fp(os2ip(derspki_key(data)[1:33])) && affy(abs(result0.point)) == fp(os2ip(derspki_key(data)[33:65]))
 //@   ensures !(derspki(data) && (sec1c(derspki_key(data)) || sec1u(derspki_key(data)))) ==> result0 == nil
 //@   fresh result0
+//@
+//@ func newPrivateKeyFromScalar
+//@   props C10 C05 C18
+//@   split case val(s) == 0
+//@   ensures val(s) == 0 ==> result0 == nil && result1 != nil
+//@   ensures val(s) != 0 ==> result1 == nil && result0.scalar == s
+//@   using smul_nonzero(val(s), G)
+//@   using gen_not_identity()
+//@   fresh result0
+//@
+//@ func NewPrivateKeyFromScalar
+//@   props C10 C18
+//@   split case val(s) == 0
+//@   ensures val(s) == 0 ==> result0 == nil && result1 != nil
+//@   ensures val(s) != 0 ==> result1 == nil && val(result0.scalar) == val(s) && fresh(result0.scalar)
+//@   fresh result0
+//@
+//@ func NewPrivateKey
+//@   props C10 C18
+//@   split case len(key) == 32 && os2ipv(key) >= 1 && os2ipv(key) < N
+//@   ensures (len(key) == 32 && os2ipv(key) >= 1 && os2ipv(key) < N) <==> (result1 == nil)
+//@   ensures (len(key) == 32 && os2ipv(key) >= 1 && os2ipv(key) < N) ==> val(result0.scalar) == fn(os2ipv(key)) && fresh(result0.scalar)
+//@   ensures !(len(key) == 32 && os2ipv(key) >= 1 && os2ipv(key) < N) ==> result0 == nil
+//@   fresh result0
+//@
+//@ func (*PrivateKey).Bytes
+//@   props C10 C18
+//@   ensures len(result) == 32 && os2ip(result) == lift(val(k.scalar))
+//@   fresh result
+//@
+//@ func (*PrivateKey).Scalar
+//@   props C10 C18
+//@   ensures val(result) == val(k.scalar)
+//@   fresh result
+//@
+//@ func (*PrivateKey).ECDH
+//@   props C10 C17
+//@   ensures result1 == nil && len(result0) == 32 && os2ip(result0) == lift(affx(smul(val(k.scalar), abs(remote.point))))
+//@   using smul_nonzero(val(k.scalar), abs(remote.point))
+//@   fresh result0
+//@
+//@ func (*PrivateKey).PublicKey
+//@   props C10 C18
+//@   ensures result == k.publicKey
+//@
+//@ func (*PublicKey).Bytes
+//@   props C10 C18
+//@   ensures len(result) == 65 && same(result, k.pointBytes)
+//@   fresh result
+//@
+//@ func (*PublicKey).CompressedBytes
+//@   props C10 C18
+//@   ensures len(result) == 33 && result[0] == 2 + lift(affy(abs(k.point))) % 2 && os2ip(result[1:33]) == lift(affx(abs(k.point)))
+//@   fresh result
+//@
+//@ func (*PublicKey).Point
+//@   props C10 C18
+//@   ensures result.isValid && abs(result) == abs(k.point)
+//@   fresh result
+//@
+//@ func hashToScalar
+//@   props C07 C08 C11
+//@   split case len(hash) >= 32
+//@   ensures len(hash) < 32 ==> result0 == nil && result1 != nil
+//@   ensures len(hash) >= 32 ==> result1 == nil && val(result0) == fn(os2ip(hash[0:32]))
+//@   fresh result0
